@@ -24,6 +24,8 @@ import random
 _real_scandir = os.scandir
 _real_listdir = os.listdir
 _real_open = builtins.open
+_real_os_write = os.write
+_real_fdopen = os.fdopen
 
 
 def _h(*parts) -> int:
@@ -87,6 +89,7 @@ class FsSim:
             "eintr_reads": 0,
         }
         self.installed = False
+        self.proc = None  # the simulated process currently running, if any (procsim sets it)
 
     # -- configuration ------------------------------------------------------
     def add_root(self, real, name):
@@ -154,6 +157,10 @@ class FsSim:
 
     # -- open ---------------------------------------------------------------
     def open(self, file, mode="r", buffering=-1, *args, **kwargs):
+        if isinstance(file, int) and not isinstance(file, bool) and self.proc is not None:
+            f = self.proc.open_fd(file, mode, buffering, *args, **kwargs)
+            if f is not None:
+                return f
         if (
             isinstance(file, (str, bytes, os.PathLike))
             and mode in ("rb", "br")
@@ -448,8 +455,6 @@ class PipeFeeder:
     from the seeded rng."""
 
     def __init__(self, data, rng, knobs, counters):
-        import threading
-
         self.data = bytes(data)
         self.chunks = []
         pos = 0
@@ -462,10 +467,22 @@ class PipeFeeder:
         counters["stdin_chunks"] = counters.get("stdin_chunks", 0) + len(self.chunks)
         self.rfd, self.wfd = os.pipe()
         self._stop = False
-        self._th = threading.Thread(target=self._run, name="sim-stdin-feeder", daemon=True)
+        # a harness thread, not a task of the simulation: started below threading
+        import _thread
+
+        self._done = _thread.allocate_lock()
+        self._done.acquire()
 
     def start(self):
-        self._th.start()
+        import _thread
+
+        def body():
+            try:
+                self._run()
+            finally:
+                self._done.release()
+
+        _thread.start_new_thread(body, ())
 
     def _pending(self):
         import array
@@ -508,8 +525,85 @@ class PipeFeeder:
         self._stop = True
         os.dup2(self.saved0, 0)
         os.close(self.saved0)
-        self._th.join(5)
+        self._done.acquire(timeout=5)
         try:
             os.close(self.rfd_probe)
         except OSError:
             pass
+
+
+class FdView(io.RawIOBase):
+    """What open(1, 'wb', buffering=0) / os.fdopen(1, ...) gives the simulated
+    process: another handle on its standard output.  Writes go to the same
+    simulated descriptor and are subject to the same short writes and faults."""
+
+    def __init__(self, raw_out):
+        super().__init__()
+        self._raw = raw_out
+        self.name = 1
+        self.mode = "wb"
+
+    def writable(self):
+        return True
+
+    def fileno(self):
+        return 1
+
+    def isatty(self):
+        return False
+
+    def write(self, b):
+        while True:
+            try:
+                return self._raw.write(b)
+            except InterruptedError:
+                continue  # FileIO.write retries EINTR itself (PEP 475)
+
+
+class ProcFds:
+    """Descriptor table of the simulated process, as far as Python-level code
+    can reach it: os.write(1, ...), open(1, ...), os.fdopen(1, ...)."""
+
+    def __init__(self, raw_out, counters):
+        self.raw_out = raw_out
+        self.counters = counters
+
+    def os_write(self, fd, data):
+        if fd == 1:
+            self.counters["direct_fd_writes"] = self.counters.get("direct_fd_writes", 0) + 1
+            n = None
+            while n is None:
+                try:
+                    n = self.raw_out.write(data)
+                except InterruptedError:
+                    continue  # PEP 475: os.write retries EINTR itself
+            return n
+        return _real_os_write(fd, data)
+
+    def open_fd(self, fd, mode="r", buffering=-1, encoding=None, errors=None, newline=None, closefd=True, opener=None):
+        if fd != 1 or not any(c in mode for c in "wa"):
+            return None
+        self.counters["direct_fd_opens"] = self.counters.get("direct_fd_opens", 0) + 1
+        raw = FdView(self.raw_out)
+        if "b" in mode:
+            if buffering == 0:
+                return raw
+            return io.BufferedWriter(raw, buffer_size=buffering if buffering and buffering > 1 else 8192)
+        buf = io.BufferedWriter(raw, buffer_size=buffering if buffering and buffering > 1 else 8192)
+        return io.TextIOWrapper(buf, encoding=encoding or "utf-8", errors=errors, newline=newline, line_buffering=(buffering == 1))
+
+    def install(self, fs):
+        fs.proc = self
+        os.write = self.os_write
+        proc = self
+
+        def fdopen(fd, mode="r", buffering=-1, encoding=None, *args, **kwargs):
+            f = proc.open_fd(fd, mode, buffering, encoding, *args, **kwargs) if isinstance(fd, int) else None
+            return f if f is not None else _real_fdopen(fd, mode, buffering, encoding, *args, **kwargs)
+
+        os.fdopen = fdopen
+
+    def uninstall(self, fs):
+        fs.proc = None
+        os.write = _real_os_write
+        os.fdopen = _real_fdopen
